@@ -509,52 +509,84 @@ pub fn judge_supply(t: &SupplyTrace, o: &SupplyOutcome) -> SupplyJudgement {
             }
         }
     }
-    // C03 for an inspection: its link is what recording the working directory before and after the
-    // scripted command gives; judged only in the simple case (one root inspection that exits 0, no
-    // delegation, rules in scope, every step's rules accepted by the reference)
+    // C03 for inspections: an inspection's link is what recording the working directory before and after its
+    // scripted command gives; between two inspections the verifier leaves the first one's link file in the
+    // working directory (a file of unknown content: an opaque digest that equals only itself). The rules of all
+    // inspections are applied after all of them have run, over the links of all steps and all inspections — so an
+    // inspection may refer to one listed after it. Judged only in the simple case (one or two root inspections
+    // that exit 0, no delegation, rules in scope, every step's rules accepted by the reference).
     let mut insp_modelled = false;
     let mut insp_reject: Option<String> = None;
-    if t.root.layout.inspect.len() == 1 && exits.len() == 1 && ev.rules_judged && ev.rules_reject.is_none() && ev.fails.is_empty() && c01.is_empty() {
-        let insp = &t.root.layout.inspect[0];
-        if insp.actor.exit == ExitSpec::Code(0) && t.work_links.is_empty() {
+    let n_insp = t.root.layout.inspect.len();
+    let distinct_names = t.root.layout.inspect.iter().map(|i| i.name.as_str()).collect::<BTreeSet<_>>().len() == n_insp
+        && t.root.layout.inspect.iter().all(|i| !t.root.layout.steps.iter().any(|s| s.name == i.name));
+    if (1..=2).contains(&n_insp) && distinct_names && exits.len() == n_insp && ev.rules_judged && ev.rules_reject.is_none() && ev.fails.is_empty() && c01.is_empty() {
+        if t.root.layout.inspect.iter().all(|i| i.actor.exit == ExitSpec::Code(0)) && t.work_links.is_empty() {
             let digest = |content: &str| {
                 let mut d = refmodel::Digests::new();
                 d.insert("sha256".to_string(), crate::gen::sha256_hex(content.as_bytes()));
                 d
             };
-            let mut before = refmodel::Artifacts::new();
-            for (n, c) in &t.work_files {
-                before.insert(n.clone(), digest(c));
-            }
-            let mut after_content: BTreeMap<String, String> = t.work_files.iter().cloned().collect();
-            let mut modelled = true;
-            for op in &insp.actor.ops {
-                match op {
-                    FsOp::Write { path, content } => {
-                        after_content.insert(path.clone(), content.clone());
-                    }
-                    FsOp::Append { path, content } => {
-                        let cur = after_content.get(path).cloned().unwrap_or_default();
-                        after_content.insert(path.clone(), format!("{cur}{content}"));
-                    }
-                    FsOp::Remove { path } => {
-                        after_content.remove(path);
-                    }
-                    _ => modelled = false,
+            // content of the working directory: Some(text) known, None opaque (keyed by an id)
+            let mut content: BTreeMap<String, Result<String, String>> = t.work_files.iter().map(|(n, c)| (n.clone(), Ok(c.clone()))).collect();
+            let to_arts = |m: &BTreeMap<String, Result<String, String>>| {
+                let mut a = refmodel::Artifacts::new();
+                for (n, c) in m {
+                    match c {
+                        Ok(text) => a.insert(n.clone(), digest(text)),
+                        Err(id) => {
+                            let mut d = refmodel::Digests::new();
+                            d.insert("sha256".to_string(), format!("opaque:{id}"));
+                            a.insert(n.clone(), d)
+                        }
+                    };
                 }
+                a
+            };
+            let mut modelled = true;
+            let mut insp_links: Vec<(String, LinkArts)> = vec![];
+            for insp in &t.root.layout.inspect {
+                let before = to_arts(&content);
+                for op in &insp.actor.ops {
+                    match op {
+                        FsOp::Write { path, content: text } => {
+                            content.insert(path.clone(), Ok(text.clone()));
+                        }
+                        FsOp::Append { path, content: text } => {
+                            let cur = content.get(path).cloned().unwrap_or(Ok(String::new()));
+                            content.insert(
+                                path.clone(),
+                                match cur {
+                                    Ok(c0) => Ok(format!("{c0}{text}")),
+                                    Err(id) => Err(format!("{id}+{text}")),
+                                },
+                            );
+                        }
+                        FsOp::Remove { path } => {
+                            content.remove(path);
+                        }
+                        _ => modelled = false,
+                    }
+                }
+                let after = to_arts(&content);
+                insp_links.push((insp.name.clone(), LinkArts { materials: before, products: after }));
+                // the verifier dumps <name>.link into the working directory before the next inspection starts
+                content.insert(format!("{}.link", insp.name), Err(format!("link-of-{}", insp.name)));
             }
-            let mut after = refmodel::Artifacts::new();
-            for (n, c) in &after_content {
-                after.insert(n.clone(), digest(c));
-            }
-            let paths_ok = before.keys().chain(after.keys()).all(|p| !p.contains('/') && !p.is_empty());
-            if let (true, true, Some(em), Some(ep)) = (
-                modelled,
-                paths_ok,
-                insp.exp_mat.iter().map(|r| refmodel::parse_rule(r)).collect::<Option<Vec<_>>>(),
-                insp.exp_prod.iter().map(|r| refmodel::parse_rule(r)).collect::<Option<Vec<_>>>(),
-            ) {
-                if em.iter().chain(ep.iter()).all(rule_in_scope) {
+            let paths_ok = insp_links.iter().all(|(_, l)| l.materials.keys().chain(l.products.keys()).all(|p| !p.contains('/') && !p.is_empty()));
+            let parsed: Option<Vec<(Vec<refmodel::Rule>, Vec<refmodel::Rule>)>> = t
+                .root
+                .layout
+                .inspect
+                .iter()
+                .map(|i| {
+                    let em = i.exp_mat.iter().map(|r| refmodel::parse_rule(r)).collect::<Option<Vec<_>>>()?;
+                    let ep = i.exp_prod.iter().map(|r| refmodel::parse_rule(r)).collect::<Option<Vec<_>>>()?;
+                    Some((em, ep))
+                })
+                .collect();
+            if let (true, true, Some(parsed)) = (modelled, paths_ok, parsed) {
+                if parsed.iter().all(|(em, ep)| em.iter().chain(ep.iter()).all(rule_in_scope)) {
                     // the links of the steps, as the level evaluation used them
                     let mut links: BTreeMap<String, LinkArts> = BTreeMap::new();
                     for st in &ev.steps {
@@ -562,10 +594,15 @@ pub fn judge_supply(t: &SupplyTrace, o: &SupplyOutcome) -> SupplyJudgement {
                             links.insert(st.name.clone(), LinkArts { materials: arts_of(&c.signed["materials"]), products: arts_of(&c.signed["products"]) });
                         }
                     }
-                    links.insert(insp.name.clone(), LinkArts { materials: before, products: after });
+                    for (n, l) in insp_links {
+                        links.insert(n, l);
+                    }
                     insp_modelled = true;
-                    if let RuleVerdict::Reject(why) = refmodel::apply_item(&em, &ep, &insp.name, &links) {
-                        insp_reject = Some(why);
+                    for (i, (em, ep)) in t.root.layout.inspect.iter().zip(parsed.iter()) {
+                        if let RuleVerdict::Reject(why) = refmodel::apply_item(em, ep, &i.name, &links) {
+                            insp_reject = Some(format!("{}: {why}", i.name));
+                            break;
+                        }
                     }
                 }
             }
@@ -574,7 +611,7 @@ pub fn judge_supply(t: &SupplyTrace, o: &SupplyOutcome) -> SupplyJudgement {
     if insp_modelled {
         if let Some(why) = &insp_reject {
             if any_ok {
-                f.push(finding("C03", "rule-violation-accepted", format!("inspection {}: reference model rejects: {why}", t.root.layout.inspect[0].name)));
+                f.push(finding("C03", "rule-violation-accepted", format!("inspection {why} (reference model rejects)")));
             }
         } else if let Some(v) = o.verdicts.iter().find(|v| !v.ok && v.panic.is_none() && v.class == "ArtifactRuleError") {
             f.push(finding("C03", "rule-rejection-without-cause", format!("the verifier rejects with '{}' but the reference model accepts every step's and the inspection's rules", v.msg.chars().take(200).collect::<String>())));
